@@ -399,6 +399,14 @@ Proof.
       { rewrite <- (Proofs.index_from_snd (map (dsig_of (m_order m) (recs_out m)) (m_signals m)) 0).
         apply in_map_iff. exists (i, ds). auto. }
       apply in_map_iff in Hds. destruct Hds as [s [Hs _]]. subst ds. reflexivity. }
+  assert (Hnomuxed : existsb (fun p : Z * dsignal => ds_muxed (snd p))
+                            (index_from 0 (map (dsig_of (m_order m) (recs_out m)) (m_signals m))) = false).
+  { destruct (existsb _ _) eqn:E; [|reflexivity]. apply existsb_exists in E. destruct E as [[i ds] [Hin Hmd]]. cbn [snd] in Hmd.
+    assert (Hds : In ds (map (dsig_of (m_order m) (recs_out m)) (m_signals m))).
+    { rewrite <- (Proofs.index_from_snd (map (dsig_of (m_order m) (recs_out m)) (m_signals m)) 0).
+      apply in_map_iff. exists (i, ds). auto. }
+    apply in_map_iff in Hds. destruct Hds as [s [Hs _]]. subst ds. discriminate Hmd. }
+  rewrite Hnomuxed.
   rewrite (u32_id (m_size m)) by lia.
   destruct (plain_import_fold mpos (u32 (m_canid m)) (m_size m) (m_order m) (recs_out m) (m_signals m) 0 st [] 0)
     as [st' [F1 F2]]; try assumption; try lia.
